@@ -65,6 +65,14 @@ func emitSpecs(c *ctx, forLexing bool) []emitSpec {
 	add("blank-tokens", "grammar blanks;\nIND = / [a-z]/\nID = /[a-z]+/\nstart = {IND | ID | \"\\x\"};\n")
 	add("classes", "grammar classes;\nHEX = /0x[[:xdigit:]]+/\nWORD = /_\\w+/\nNONSP = /![^\\s]+/\nANY = /\\?./\nUP = /[[:upper:]][[:lower:]]*/\nstart = {HEX | WORD | NONSP | ANY | UP};\n")
 	add("ranges", "grammar ranges;\nAA = /[\\x20-\\x2F]+/\nBB = /[\\x5B-\\x60]/\nCC = /\\x7E\\x7F?/\nDD = /[^\\x01-\\x7E]/\nstart = {AA | BB | CC | DD};\n")
+	// a class of 12,800 characters (one 'case' line of the emitted switch is longer than 64 KiB), characters in
+	// U+8000..U+FFFF (three-byte sequences with a lead byte of E8 and above), full-width forms
+	if forLexing {
+		// (the compiled lexer is driven on these: narrower classes keep the input generator fast)
+		add("cjk-lex", "grammar cjklex;\nHAN = /[\\x4E00-\\x4E7F]+/\nHI = /[\\x8000-\\x807F\\xE000\\xFFFD]+/\nKANA = /[\\x3040-\\x309F]+/\nFW = /[\\xFF01-\\xFF5E]/\nstart = {HAN | HI | KANA | FW | \"x\"};\n")
+	} else {
+		add("cjk", "grammar cjk;\nHAN = /[\\x4E00-\\x7FFF]+/\nHI = /[\\x8000-\\x9FFF]+/\nKANA = /[\\x3040-\\x30FF]+/\nFW = /[\\xFF01-\\xFF5E]/\nstart = {HAN | HI | KANA | FW | \"x\"};\n")
+	}
 	r := c.rng("emit")
 	n := c.n(6, 2000)
 	if forLexing {
@@ -387,6 +395,58 @@ func runDriver(bin string, reqs []map[string]any) ([]map[string]any, error) {
 	return out, nil
 }
 
+// c08Regenerate: a second run into a directory that already holds the package of an earlier, LARGER grammar of the same
+// name. The tool may refuse; if it reports success, what is on disk must be exactly what a run into a fresh directory
+// emits (no remains of the earlier files).
+func c08Regenerate(c *ctx, root string) {
+	bin := filepath.Join(verifDir, "bin", "emerge")
+	big := "grammar regen;\nID = /[a-z][a-z0-9_]*/\nNUM = /[0-9]+(\\.[0-9]+)?/\nSTR = /\"[^\"]*\"/\nstart = {ID | NUM | STR | \"while\" | \"until\" | \"whilst\" | \"unless\" | \"<=\" | \"<\" | \"<<\"};\n"
+	small := "grammar regen;\nstart = {\"a\" | \"b\"};\n"
+	run := func(dir, text string) (bool, string) {
+		_ = os.MkdirAll(dir, 0o755)
+		sf := filepath.Join(dir, "in.ebnf")
+		_ = os.WriteFile(sf, []byte(text), 0o644)
+		cmd := exec.Command(bin, "-out", dir, sf)
+		var ob bytes.Buffer
+		cmd.Stdout, cmd.Stderr = &ob, &ob
+		err := cmd.Run()
+		return err == nil, stripANSI(ob.String())
+	}
+	for i, order := range [][2]string{{big, small}, {small, big}, {big, big}} {
+		c.eval()
+		dir := filepath.Join(root, fmt.Sprintf("regen%d", i))
+		fresh := filepath.Join(root, fmt.Sprintf("regen%d-fresh", i))
+		ok1, out1 := run(dir, order[0])
+		if !ok1 {
+			c.inconclusive("first generation failed")
+			c.note("regen first run: %s", firstLines(out1, 4))
+			continue
+		}
+		ok2, _ := run(dir, order[1])
+		c.count("second_runs_into_an_existing_package_directory", 1)
+		if !ok2 {
+			c.count("second_runs_refused", 1)
+			continue
+		}
+		if okf, outf := run(fresh, order[1]); !okf {
+			c.inconclusive("fresh generation failed")
+			c.note("regen fresh run: %s", firstLines(outf, 4))
+			continue
+		}
+		c.nontrivial(fmt.Sprintf("regen%d", i))
+		for _, f := range emittedFiles {
+			a, _ := os.ReadFile(filepath.Join(dir, "regen", f))
+			b, _ := os.ReadFile(filepath.Join(fresh, "regen", f))
+			if !bytes.Equal(a, b) {
+				c.violate(violation{Case: fmt.Sprintf("regenerate%d/%s", i, f), Input: map[string]string{"first_specification": order[0], "second_specification": order[1]},
+					Observed: fmt.Sprintf("the second run reported success; %s has %d bytes and differs from a fresh generation (%d bytes): %s", f, len(a), len(b), firstDiffLine(string(a), string(b))),
+					Expected: "refused, or exactly the files a run into an empty directory emits"})
+				break
+			}
+		}
+	}
+}
+
 func runC08(c *ctx) {
 	root, err := os.MkdirTemp("", "verif-c08-")
 	if err != nil {
@@ -394,6 +454,7 @@ func runC08(c *ctx) {
 		return
 	}
 	defer os.RemoveAll(root)
+	c08Regenerate(c, root)
 	specs := emitSpecs(c, false)
 	pkgs := emitBatch(c, root, specs)
 	// (1) static checks per package
